@@ -16,11 +16,72 @@ havocked).
 
 Nothing of /repo is executed: this is an abstract semantics over MIR facts.
 """
+import os, sys
 import itertools
 from .facts import callee_name, callee_decl
 
 # --------------------------------------------------------------------------
 # term helpers
+
+
+class T(tuple):
+    """hash-consed term: created only through `intern`, so equal terms are the same object; the hash is cached
+    (hashing / comparing plain nested tuples is exponential on DAGs with sharing)"""
+
+    def __hash__(self):
+        h = self.__dict__.get('h')
+        if h is None:
+            h = tuple.__hash__(self)
+            self.__dict__['h'] = h
+        return h
+
+    def __eq__(self, o):
+        if self is o:
+            return True
+        if type(o) is T:
+            return False
+        return tuple.__eq__(self, o)
+
+    def __ne__(self, o):
+        return not self.__eq__(o)
+
+    def __reduce__(self):
+        return (_rebuild, (tuple(self),))
+
+
+_TABLE = {}
+
+
+def _rebuild(items):
+    t = _TABLE.get(items)
+    if t is None:
+        t = T(items)
+        _TABLE[t] = t
+    return t
+
+
+def intern(v):
+    if type(v) is T or not isinstance(v, tuple):
+        return v
+    stack = [(v, False)]
+    done = {}
+    while stack:
+        x, ready = stack.pop()
+        if ready:
+            items = tuple(done[id(y)] if (isinstance(y, tuple) and type(y) is not T) else y for y in x)
+            t = _TABLE.get(items)
+            if t is None:
+                t = T(items)
+                _TABLE[t] = t
+            done[id(x)] = t
+        else:
+            if id(x) in done:
+                continue
+            stack.append((x, True))
+            for y in x:
+                if isinstance(y, tuple) and type(y) is not T and id(y) not in done:
+                    stack.append((y, False))
+    return done[id(v)]
 
 
 def C(ty, v, name=None):
@@ -172,6 +233,7 @@ class Engine:
         self.interest = set()    # callee names whose calls are logged
         self.step_limit = 30_000_000
         self.use_cache = True
+        self.loop_abstract = True   # False: loops are only unrolled (up to loop_bound), never abstracted
         self.trace_kinds = set()
         self.visited = {}
         self.dropped = 0
@@ -243,6 +305,10 @@ class Engine:
                 return v[1]
             return ('cellof', v)
         if k == 'idx':
+            if tag == 'arrset':
+                if v[2] == el[1]:
+                    return v[3]
+                return ('elem', v, el[1])
             if tag in ('vec', 'array') and is_const(el[1]) and isinstance(cval(el[1]), int):
                 items = v[1]
                 i = cval(el[1])
@@ -314,7 +380,8 @@ class Engine:
                 if i < len(items):
                     items[i] = self._update(st, items[i], path[1:], new)
                     return (tag, tuple(items))
-            raise Unmodelled('store into symbolic index')
+            old = self.project(st, v, el)
+            return ('arrset', v, el[1], self._update(st, old, path[1:], new))
         raise Unmodelled(f'store {el}')
 
     def store(self, st, root, path, new):
@@ -323,10 +390,11 @@ class Engine:
             return
         if root[0] == 'P':
             raise Unmodelled('store into promoted')
+        new = intern(new)
         if not path:
             st.mem[root] = new
             return
-        st.mem[root] = self._update(st, self.getroot(st, root), path, new)
+        st.mem[root] = intern(self._update(st, self.getroot(st, root), path, new))
 
     # ---------------------------------------------------------------- force
     def force(self, st, v):
@@ -337,7 +405,7 @@ class Engine:
 
     def decide(self, st, c):
         """truth value of a boolean term on this path (fork if free)"""
-        c = self.force(st, c)
+        c = intern(self.force(st, c))
         if is_const(c):
             return bool(cval(c))
         if c[0] == 'un' and c[1] == 'Not':
@@ -357,7 +425,7 @@ class Engine:
         raise Fork(c, [True, False])
 
     def decide_int(self, st, t, listed):
-        t = self.force(st, t)
+        t = intern(self.force(st, t))
         if is_const(t):
             return cval(t)
         if t in st.asm:
@@ -448,6 +516,8 @@ class Engine:
         ty = o.get('ty', '?')
         if 'promoted' in o:
             return self.promoted(o['of'], o['promoted'])
+        if 'closure' in o and 'fn' in o:
+            return ('closure', o['closure'], ())
         if 'fn' in o:
             return ('fn', o['fn'], o.get('raw'))
         if 'f64' in o:
@@ -470,6 +540,9 @@ class Engine:
             return C(ty, d, o.get('named'))
         if 'variant' in o:
             return mk_enum(ty, o['variant'], o.get('vidx', 0), tuple(self.eval_const(st, x) for x in o.get('fields', [])))
+        if 'elems' in o:
+            items = tuple(self.eval_const(st, x) for x in o['elems'])
+            return ('tuple', items) if ty.startswith('(') else ('array', items)
         return ('constx', ty, o.get('named') or o.get('other') or 'uneval')
 
     def promoted(self, of, idx):
@@ -652,7 +725,7 @@ class Engine:
         fr = Frame(0, body, None, None)
         st.frames.append(fr)
         for i, a in enumerate(args):
-            st.mem[('L', 0, i + 1)] = a
+            st.mem[('L', 0, i + 1)] = intern(a)
         return self.run_until(st, 0)
 
     def sym_args(self, path, names=None):
@@ -693,7 +766,7 @@ class Engine:
                 children = {}
                 for val in f.options:
                     st2 = st.clone()
-                    st2.asm[f.cond] = val
+                    st2.asm[intern(f.cond)] = val
                     children[val] = self.run_until(st2, depth, jp)
                 tree = self.reduce(('fork', f.cond, children))
                 return self.reduce(self.graft(tree, depth, stop))
@@ -701,6 +774,11 @@ class Engine:
                 if e.kind == 'panic':
                     self.event(st, 'panic', info=e.info)
                 return ('end', e.kind, e.info)
+            except Unmodelled as e:
+                fn = st.frames[-1].body.path if st.frames else '?'
+                self.incomplete.append(('unmodelled', str(e), fn))
+                self.event(st, 'incomplete', what=f'unmodelled construct: {e}', fn=fn)
+                return ('end', 'unmodelled', str(e))
             if sub is not None:
                 # a callee produced several outcomes: continue each of them
                 return self.reduce(self.graft(sub, depth, stop))
@@ -763,14 +841,14 @@ class Engine:
         s0 = states[0]
         for s in states[1:]:
             if len(s.frames) != len(s0.frames) or (s.pending is None) != (s0.pending is None):
-                return None
+                return self._nomerge(1)
             for f, g in zip(s.frames, s0.frames):
                 if f.fid != g.fid or f.block != g.block or f.stmt != g.stmt or f.body is not g.body:
-                    return None
+                    return self._nomerge(2)
         if s0.pending is not None:
-            return None
+            return self._nomerge(3)
         if any(s.trace != s0.trace for s in states[1:]):
-            return None
+            return self._nomerge(4)
         allkeys = set()
         for s in states:
             allkeys |= s.mem.keys()
@@ -785,6 +863,14 @@ class Engine:
                     if r[0] == 'L' and r[1] == top.fid and r[2] not in live and r[2] not in addr:
                         dead.add(r)
         allkeys -= dead
+        # temporaries no longer reachable from any local / static root are garbage
+        if any(r[0] == 'T' for r in allkeys) and not any(f.cont is not None for s in states for f in s.frames):
+            livet = set()
+            for s in states:
+                livet |= self.reachable_temps(s, dead)
+            gone = {r for r in allkeys if r[0] == 'T' and r not in livet}
+            dead |= gone
+            allkeys -= gone
         diff = []
         for r in allkeys:
             v0 = s0.mem.get(r, UN)
@@ -797,11 +883,11 @@ class Engine:
         for r in diff:
             for s in states:
                 if not pure_data(s.mem.get(r, UN)):
-                    return None
+                    return self._nomerge((5, r, [x.mem.get(r, UN) for x in states]))
         rets = [s.ret for s in states]
         if any(r is not None and not pure_data(r) for r in rets):
             if any(r != rets[0] for r in rets):
-                return None
+                return self._nomerge(6)
         m = s0.clone()
         for r in dead:
             m.mem.pop(r, None)
@@ -817,9 +903,9 @@ class Engine:
             own.append({k: v for k, v in t[1].asm.items() if k not in common})
         memos = [{} for _ in vals]
         for r in diff:
-            m.mem[r] = self.merge_values(cond, [(v, specialise(t[1].mem.get(r, UN), own[i], memos[i]))
-                                                for i, (v, t) in enumerate(vals)])
-        m.ret = self.merge_values(cond, [(v, specialise(t[1].ret, own[i], memos[i])) for i, (v, t) in enumerate(vals)])
+            m.mem[r] = intern(self.merge_values(cond, [(v, specialise(t[1].mem.get(r, UN), own[i], memos[i]))
+                                                       for i, (v, t) in enumerate(vals)]))
+        m.ret = intern(self.merge_values(cond, [(v, specialise(t[1].ret, own[i], memos[i])) for i, (v, t) in enumerate(vals)]))
         # loop bookkeeping: keep the union of what the joined paths have seen
         for i, f in enumerate(m.frames):
             for s in states[1:]:
@@ -830,6 +916,33 @@ class Engine:
         m.nfid = max(s.nfid for s in states)
         m.ntmp = max(s.ntmp for s in states)
         return m
+
+    def reachable_temps(self, st, dead=()):
+        """'T' roots reachable through references from the other roots, the return value and the pending call"""
+        out = set()
+        seen_ids = set()
+        stack = [v for k, v in st.mem.items() if k[0] != 'T' and k not in dead]
+        stack.append(st.ret)
+        if st.pending is not None:
+            stack.append(st.pending[1])
+        while stack:
+            x = stack.pop()
+            if not isinstance(x, tuple) or id(x) in seen_ids:
+                continue
+            seen_ids.add(id(x))
+            if x and x[0] == 'T' and len(x) == 2 and isinstance(x[1], int):
+                if x not in out:
+                    out.add(x)
+                    if x in st.mem:
+                        stack.append(st.mem[x])
+                continue
+            stack.extend(x)
+        return out
+
+    def _nomerge(self, why):
+        if os.environ.get('IPT_DEBUG_MERGE'):
+            print('no merge: reason', str(why)[:1500], file=sys.stderr)
+        return None
 
     def merge_values(self, cond, pairs):
         vs = [v for _, v in pairs]
@@ -873,6 +986,11 @@ class Engine:
                     for s in blk['stmts']:
                         if s['k'] == 'assign':
                             assigned.add(s['place']['l'])
+                            rv = s['rv']
+                            # `x += d` on a non-primitive is add_assign(&mut x, d): the borrowed local varies too
+                            if rv.get('k') == 'ref' and rv.get('mut') and not any(
+                                    e == 'deref' for e in rv['place'].get('p', [])):
+                                assigned.add(rv['place']['l'])
                     t = blk['term']
                     if t['k'] == 'call':
                         assigned.add(t['dest']['l'])
@@ -906,7 +1024,7 @@ class Engine:
             return
         seen = fr.loops[fr.block]
         inits = seen[0][1]
-        symbolic = seen[-1][3] or bool(set(st.asm) - seen[-1][2]) or len(seen) > 24
+        symbolic = self.loop_abstract and (seen[-1][3] or bool(set(st.asm) - seen[-1][2]) or len(seen) > 24)
         if symbolic:
             for l in scal:
                 root = ('L', fr.fid, l)
@@ -918,6 +1036,10 @@ class Engine:
                     if not pure_data(cur):
                         continue
                     if cur != inits.get(l, cur) or (isinstance(cur, tuple) and cur and cur[0] == 'loopval'):
+                        h = self.hooks.get('loop_back')
+                        if h:
+                            # value carried into the next iteration (a term over this iteration's loopval)
+                            h(self, st, fr, lid, l, inits.get(l), cur)
                         st.mem[root] = ('loopval', (lid, l), inits.get(l))
             # conditions on loop-variant terms do not carry over to the next iteration
             for c in [c for c in st.asm if mentions_loop(c, lid)]:
@@ -1098,6 +1220,7 @@ class Engine:
         if not isinstance(fr.fid, tuple):
             for r in [r for r in st.mem if r[0] == 'L' and r[1] == fr.fid]:
                 del st.mem[r]
+        rv = intern(rv)
         st.ret = rv
         if fr.cont is not None:
             st.pending = (fr.cont, rv)
@@ -1135,13 +1258,13 @@ class Engine:
         fr = Frame(fid, body, dest, target, cont, site)
         st.frames.append(fr)
         for i, a in enumerate(args):
-            st.mem[('L', fid, i + 1)] = a
+            st.mem[('L', fid, i + 1)] = intern(a)
         return fr
 
     def temp(self, st, v):
         r = ('T', st.ntmp)
         st.ntmp += 1
-        st.mem[r] = v
+        st.mem[r] = intern(v)
         return r
 
     def call_callable(self, st, f, args, cont):
@@ -1151,7 +1274,20 @@ class Engine:
         if f[0] == 'fn':
             body = self.facts.bodies.get(f[1])
             if body is None:
-                rv = self.opaque_app(st, f[1], args)
+                rv = None
+                m = MODELS.get(f[1]) or model_by_pattern(f[1], {'callee': {}})
+                if m is not None:
+                    fake = {'callee': {'decl': f[1], 'resolved': f[1], 'gargs': []}, 'span': None, 'args': [], 'target': None}
+                    depth0 = len(st.frames)
+                    pend0 = st.pending
+                    try:
+                        r = m(self, st, st.frames[-1], fake, list(args), None, None)
+                    except (TypeError, AttributeError, KeyError, IndexError):
+                        r = DEFER
+                    if r is not DEFER and len(st.frames) == depth0 and st.pending is pend0:
+                        rv = r
+                if rv is None:
+                    rv = self.opaque_app(st, f[1], args)
                 st.ret = rv
                 self.resume(st, cont, rv)
                 return
@@ -1235,6 +1371,18 @@ class Engine:
     def do_call(self, st, fr, t):
         name = callee_name(t)
         args = [self.eval_operand(st, fr, a) for a in t['args']]
+        if 'indirect' in t['callee']:
+            # call through a function pointer / fn item held in a local
+            fv = self.force(st, self.eval_operand(st, fr, t['callee']['indirect']))
+            if isinstance(fv, tuple) and fv and fv[0] == 'ref':
+                fv = self.force(st, self.load(st, fv[1], fv[2]))
+            if isinstance(fv, tuple) and fv and fv[0] == 'fn':
+                name = fv[1]
+            elif isinstance(fv, tuple) and fv and fv[0] == 'closure':
+                dest = self.eval_place(st, fr, t['dest'])
+                self.visited[(fr.body.path, fr.block)] = self.visited.get((fr.body.path, fr.block), 0) + 1
+                self.call_callable(st, fv, args, ('wrap', dest, t['target'], lambda x: x))
+                return None
         dest = self.eval_place(st, fr, t['dest'])
         target = t['target']
         site = (fr.body.path, fr.block, t.get('span'))
@@ -1273,6 +1421,18 @@ class Engine:
             ga = t['callee'].get('gargs') or []
             if ga:
                 self_ty = fr.self_ty if ga[0] == 'Self' else ga[0]
+        if body is not None and body.kind == 'Closure' and (callee_decl(t) or '').startswith(('std::ops::Fn::call', 'std::ops::FnMut::call_mut',
+                                                                                             'std::ops::FnOnce::call_once')) and len(args) == 2:
+            # "rust-call" ABI: the arguments arrive as one tuple
+            tup = self.force(st, args[1])
+            if isinstance(tup, tuple) and tup and tup[0] == 'tuple':
+                args = [args[0]] + list(tup[1])
+            env_is_ref = 'ref' in body.locals[1]
+            a0 = self.force(st, args[0])
+            if env_is_ref and not (isinstance(a0, tuple) and a0 and a0[0] == 'ref'):
+                args[0] = mk_ref(self.temp(st, a0), ())
+            elif not env_is_ref and isinstance(a0, tuple) and a0 and a0[0] == 'ref':
+                args[0] = self.load(st, a0[1], a0[2])
         if body is not None and name not in self.opaque and not self.is_opaque(name):
             depth = len(st.frames)
             if self.use_cache:
@@ -1460,9 +1620,10 @@ def specialise(v, asm, memo=None):
         elif d is False:
             r = specialise(v[3], asm, memo)
         else:
+            c2 = specialise(v[1], asm, memo)
             a = specialise(v[2], asm, memo)
             b = specialise(v[3], asm, memo)
-            r = v if (a is v[2] and b is v[3]) else ite(v[1], a, b)
+            r = v if (a is v[2] and b is v[3] and c2 is v[1]) else ite(c2, a, b)
     else:
         ch = False
         out = []
@@ -1525,6 +1686,9 @@ def model(*names):
 
 
 def model_by_pattern(name, t):
+    from . import models as _m
+    if name and _m._NUM_FROM.match(name):
+        return _m._num_from
     if name in F64_METHODS:
         short = F64_METHODS[name]
 
